@@ -1134,7 +1134,10 @@ func (o *cpObs) tamperRound(s *Sim, f *cpFile, rg *rand.Rand, benign bool) {
 		return
 	}
 	if !ok {
-		s.violate("C16", "clean-transfer-rejected", rej.stage, fmt.Sprintf("catchpoint %s: the untampered file was rejected at %s: %v", f.Label, rej.stage, rej.err))
+		if o.cleanRejectKnown(s, f, rej) {
+			return
+		}
+		s.violate("C16", "clean-transfer-rejected", cpCleanRejectKey(f, rej), fmt.Sprintf("catchpoint %s: the untampered file was rejected at %s: %v%s", f.Label, rej.stage, rej.err, cpCollisionNote(f)))
 		return
 	}
 	s.stat("c15.control_verified", 1)
